@@ -340,10 +340,23 @@ func IsFault(err error) bool {
 	return errors.As(err, &c) && strings.HasPrefix(c.URL, "http://injected.fault/")
 }
 
+// ErrDeliverGarbled, returned by a fault plan for a GetChunk, makes the store answer the way a store opened without
+// verification (skip-verify) answers for an object damaged in transit or on disk: a chunk and a nil error, the damage
+// only shows when the chunk's data is asked for.
+var ErrDeliverGarbled = errors.New("deliver an undecodable chunk without an error")
+
 func (m *MemStore) GetChunk(id desync.ChunkID) (*desync.Chunk, error) {
 	n, t0, _ := m.begin("get", id)
 	if f := m.getFault(); f != nil {
-		if err := f("get", n, id); err != nil {
+		if err := f("get", n, id); err == ErrDeliverGarbled {
+			ch, cerr := desync.NewChunkFromStorage(id, []byte("this is not a zstd frame"), desync.Converters{desync.Compressor{}}, true)
+			if cerr != nil {
+				m.end2("get", id, n, t0, "error", 0, cerr, nil)
+				return nil, cerr
+			}
+			m.end2("get", id, n, t0, "garbled", 0, nil, ch)
+			return ch, nil
+		} else if err != nil {
 			m.end2("get", id, n, t0, "error", 0, err, nil)
 			return nil, err
 		}
